@@ -30,6 +30,9 @@ CHECKS = {
  "C09": dict(cat="exploration", tech="bounded-exhaustive enumeration (all formats of order 0-3 x small dimensions x every coordinate subset x constructors) plus Hypothesis-generated constructions (order<=4, duplicates, shuffles, zero values, out-of-range variants) against an in-memory dict model; raw-array validity; pickle and to_format round-trips",
    text="Every enumerated/generated construction is compared with a dict model through to_dok/items, through the raw cffi arrays (canonical structure), through pickling and through to_format; out-of-range coordinates must raise. The sub-domain named in evidence is enumerated completely; the rest is sampled.",
    note="Trusted: the harness's raw-array decoder and validity predicate.", ref="DESIGN.md §3 C09"),
+ "C10": dict(cat="fault_enumeration", tech="fault injection on generated valid calls: every fault kind (missing/extra/non-Tensor argument, wrong size of one dimension slot, wrong order, flipped mode, permuted ordering, wrong name, positional) x both entry points, with a spy replacing the compiled function pointer",
+   text="For each Hypothesis-generated valid call whose kernel exists, every fault kind is injected in turn through evaluate() and tensor_method()(); the call must raise one of the documented exception types and the spy standing in for the compiled kernel must not be entered; the unmutated call must reach the spy exactly once.",
+   note="Trusted: the spy sits exactly where TensorMethod calls the function pointer (self._evaluate).", ref="DESIGN.md §3 C10"),
 }
 def main():
     checks = []
